@@ -17,7 +17,7 @@ VERIF_FAIL = re.compile(
     r'cannot prove that call to.*|function body check:.*|'
     r'loop ensures clause not satisfied.*|at the break, loop ensures not satisfied|'
     r'.*arithmetic.*overflow.*|constructed value may fail.*|'
-    r'could not show termination.*|precondition not met.*|unable to prove post-condition of closure.*|.*closure.*not satisfied.*)$')
+    r'could not show termination.*|precondition not met.*|loop invariant not satisfied.*|unable to prove post-condition of closure.*|.*closure.*not satisfied.*)$')
 RLIMIT = re.compile(r'(Resource limit|rlimit|timed out|solver error|incomplete)', re.I)
 
 
